@@ -85,7 +85,7 @@ class Prop(object):
     RULE = ('primary flag set (8) x 0..2 subkeys each with a flag set from {absent, C, S, E, Es, A, S+E, all, none} (728 configurations), plus for every subkey / '
             'primary flag pair a newer self-signature that changes the flags, plus two identities carrying different flags (user=) x operation {sign, certify, '
             'encrypt, decrypt-per-addressed-component} x flag enforcement {on, off} x form {public, private, locked, unlocked}. One state = one '
-            '(configuration, operation, enforcement, form).')
+            '(configuration, operation, enforcement, form). Keys whose components carry different passphrases: a failed unlock (passphrase of the primary / of the subkeys / of neither) x live / re-imported x enforcement leaves the key locked and six private operations refusing.')
     ASSUMPTIONS = ['all components are RSA keys (can sign and encrypt) written by the reference encoder with arbitrary flag subpackets',
                    'a component without any key-flags subpacket is a don\'t-care (RFC 4880: unrestricted; PGPy: grants nothing); the primary key may always certify']
     CASE_TIMEOUT = 1500
@@ -565,5 +565,49 @@ class Prop(object):
                                    '%s on a locked key (%s, is_unlocked=False) whose subkey is unprotected did not refuse' % (name, form))
                     except Exception:
                         r.outcomes['mixed-lock:refused'] += 1
-        r.samples.append({'preconditions': 'forms x enforcement'})
+        # a key whose components carry different passphrases (GnuPG 1.4 / 2.0 allowed that): unlock() with the passphrase of one component raises at the
+        # other one - no unlock succeeded, so afterwards (outside any scope) the key is locked and every private operation refuses, whichever
+        # component came first; and a later correct unlock of nothing-in-particular does not depend on what the failed attempt left behind
+        import warnings
+        PW_A, PW_B = 'primary passphrase', 'subkey passphrase'
+        for form in ('live', 're-imported'):
+            for attempt in (PW_A, PW_B, 'neither'):
+                for enforce in (True, False):
+                    r.states += 1
+                    r.transitions += 1
+                    two, _traw = K.pgpy_cert('ed25519a', uid='Two <two@example.org>', usage={KeyFlags.Certify, KeyFlags.Sign})
+                    two.add_subkey(K.pgpy_secret(K.raw('ed25519c', K.T0)), usage={KeyFlags.Sign}, created=K.dt(K.T0 + 9))
+                    two.add_subkey(K.pgpy_secret(K.raw('cv25519a', K.T0)), usage={KeyFlags.EncryptCommunications}, created=K.dt(K.T0 + 9))
+                    with warnings.catch_warnings():
+                        warnings.simplefilter('ignore')
+                        for sk in two.subkeys.values():
+                            sk.protect(PW_B, SymmetricKeyAlgorithm.AES128, HashAlgorithm.SHA256)
+                        two.protect(PW_A, SymmetricKeyAlgorithm.AES256, HashAlgorithm.SHA512)
+                    obj = two if form == 'live' else pgpy.PGPKey.from_blob(bytes(two))[0]
+                    A.set_enforcement(obj, enforce)
+                    enc = obj.pubkey.encrypt(pgpy.PGPMessage.new(b'to the subkey', compression=CompressionAlgorithm.Uncompressed, format='b'))
+                    entered = False
+                    try:
+                        with obj.unlock(attempt):
+                            entered = True
+                    except Exception:
+                        r.outcomes['split-passphrase:unlock-refused'] += 1
+                    if entered:
+                        r.viol('precondition', {'kind': 'precondition', 'op': 'unlock', 'form': 'split-passphrases', 'enforce': enforce}, case,
+                               'unlock(%r) of a key (%s) whose components have different passphrases entered its scope' % (attempt, form))
+                    if obj.is_unlocked or any(sk.is_unlocked for sk in obj.subkeys.values()):
+                        r.viol('precondition', {'kind': 'precondition', 'op': 'is_unlocked', 'form': 'after-failed-unlock', 'enforce': enforce}, case,
+                               'after a failed unlock(%r) (%s) the key or a subkey reports is_unlocked=True outside any unlock scope' % (attempt, form))
+                    someone = pgpy.PGPUID.new('Someone', email='someone@example.org')
+                    for name, fn in (('sign', lambda: obj.sign(b'x')), ('certify', lambda: obj.certify(someone)), ('revoke', lambda: obj.revoke(obj)),
+                                     ('bind', lambda: obj.bind(list(obj.subkeys.values())[1])), ('decrypt', lambda: obj.decrypt(enc)),
+                                     ('subkey-sign', lambda: list(obj.subkeys.values())[0].sign(b'x'))):
+                        try:
+                            fn()
+                            r.outcomes['split-passphrase:done'] += 1
+                            r.viol('precondition', {'kind': 'precondition', 'op': name, 'form': 'after-failed-unlock', 'enforce': enforce}, case,
+                                   '%s after a failed unlock(%r) of a locked key (%s, components with different passphrases) did not refuse' % (name, attempt, form))
+                        except Exception:
+                            r.outcomes['split-passphrase:refused'] += 1
+        r.samples.append({'preconditions': 'forms x enforcement; split passphrases x failed unlock x 6 private operations'})
         return r
